@@ -714,6 +714,32 @@ def pow_uf(w):
             z3.Function(f"POW_fits_{w}", bv, z3.BitVecSort(64), z3.BoolSort()))
 
 
+def pow_lemmas(a, b):
+    """True facts about the exact power a**b (a: BV64 signed base, b: BV64 exponent with 0 <= b <= u32::MAX) in terms of
+    the uninterpreted POW_val / POW_fits: the special bases and exponents for which an implementation might take a
+    fast path (0, 1, -1, 2, -2; exponents 0 and 1; everything with |a| >= 2 overflows from exponent 64 on)."""
+    pv, pf = pow_uf(64)
+    v, f = pv(a, b), pf(a, b)
+    one, zero = z3.BitVecVal(1, 64), z3.BitVecVal(0, 64)
+    mn = z3.BitVecVal(-(1 << 63), 64)
+    inr = z3.And(b >= 0, b <= 0xFFFFFFFF)
+    even = z3.Extract(0, 0, b) == 0
+    shl = one << b
+    big = z3.Or(a >= 2, a <= -2)
+    return [z3.Implies(inr, z3.And(
+        z3.Implies(b == 0, z3.And(f, v == one)),
+        z3.Implies(b == 1, z3.And(f, v == a)),
+        z3.Implies(z3.And(a == 0, b > 0), z3.And(f, v == zero)),
+        z3.Implies(a == 1, z3.And(f, v == one)),
+        z3.Implies(a == -1, z3.And(f, v == z3.If(even, one, -one))),
+        z3.Implies(z3.And(a == 2, b < 63), z3.And(f, v == shl)),
+        z3.Implies(z3.And(a == 2, b >= 63), z3.Not(f)),
+        z3.Implies(z3.And(a == -2, b < 63), z3.And(f, v == z3.If(even, shl, -shl))),
+        z3.Implies(z3.And(a == -2, b == 63), z3.And(f, v == mn)),
+        z3.Implies(z3.And(big, b >= 64), z3.Not(f)),
+    ))]
+
+
 def int_method(I, x, name, args, node):
     used("int::" + name)
     a = [I.deref(v) for v in args]
@@ -965,6 +991,30 @@ def clen8(I, c):
     return k
 
 
+def char_utf8_bytes(I, c):
+    """UTF-8 encoding of a char as 8-bit Ints; the length class of a symbolic char is decided by forking (as in clen8)."""
+    if c.conc:
+        return [Int(b, 8, False) for b in chr(c.v).encode("utf-8")]
+    z = c.v
+    key = ("len8", str(z))
+    k = I.ctx.known_tags.get(key)
+    if k is None:
+        k = 1 + I.ctx.choose([z3.ULT(z, 0x80), z3.And(z3.UGE(z, 0x80), z3.ULT(z, 0x800)),
+                              z3.And(z3.UGE(z, 0x800), z3.ULT(z, 0x10000)), z3.UGE(z, 0x10000)])
+        I.ctx.known_tags[key] = k
+    ex = lambda hi, lo, w: z3.ZeroExt(8 - (hi - lo + 1), z3.Extract(hi, lo, z))  # noqa: E731
+    cont = lambda hi, lo: z3.BitVecVal(0x80, 8) | ex(hi, lo, 6)  # noqa: E731
+    if k == 1:
+        zs = [z3.Extract(7, 0, z)]
+    elif k == 2:
+        zs = [z3.BitVecVal(0xC0, 8) | ex(10, 6, 5), cont(5, 0)]
+    elif k == 3:
+        zs = [z3.BitVecVal(0xE0, 8) | ex(15, 12, 4), cont(11, 6), cont(5, 0)]
+    else:
+        zs = [z3.BitVecVal(0xF0, 8) | ex(20, 18, 3), cont(17, 12), cont(11, 6), cont(5, 0)]
+    return [int_from_z(z3.simplify(b), 8, False) for b in zs]
+
+
 def char_len_utf16(c):
     if c.conc:
         return 1 if c.v < 0x10000 else 2
@@ -1150,7 +1200,10 @@ def str_method(I, s, name, args, node):
         if s.conc:
             return IterV([Int(b, 8, False) for b in s.s.encode("utf-8")]) if name == "bytes" else \
                 Vec([Int(b, 8, False) for b in s.s.encode("utf-8")], "slice")
-        I.unsupported("bytes of symbolic string", node)
+        bs = []
+        for c in s.chars():
+            bs += char_utf8_bytes(I, c)
+        return IterV(bs) if name == "bytes" else Vec(bs, "slice")
     if name in ("push", "push_str"):
         str_push_str(I, s, a[0], node)
         return UNIT
